@@ -204,6 +204,12 @@ def judge1(case):
     files = {k: v[1] for k, v in listing.items() if v[0] == "f"}
     res["files"] = {k: v.decode("latin1") for k, v in files.items()}
     res["expected_files"] = {k: v.decode("latin1") for k, v in fs.items()} if exp["ran"] else "(not run)"
+    # --- no file but the named targets: an operator character inside a quoted or escaped argument names nothing
+    extra = sorted(set(listing) - set(FILES) - {"dir1"})
+    if extra:
+        res["unexpected_entries"] = extra
+        return ("violated", "C04:file-created-that-no-redirection-names:%s:%s" % (
+            feat, "argument-with-quoted-operator" if case.get("decoys") else "no-such-argument"), res)
     # --- follow-up command and shell must be unaffected whatever happened
     if len(z) != 1 or len(snap) != 1:
         return ("violated", "C04:follow-up-command-did-not-run:%s:ops=%s" % (feat, ops), res)
@@ -275,6 +281,7 @@ def judge1(case):
 
 
 OUT_OPS = [">", ">>", "1>", "2>", "2>>", "2>&1", "1>&2", ">&2", "1>>"]
+DECOY_ARGS = ["k='x > zz1'", '"q > zz2"', "'>'", "\\>", 'k="y>zz3"', "--opt='2> zz4'", "'a >> zz5'", "n='p < zz6'", "k='2>&1'", "v=\\>zz7"]
 
 
 def gen_case(rng, thorough):
@@ -292,6 +299,12 @@ def gen_case(rng, thorough):
             cmd, emits, bst = "unalias nosuch", [(2, b"cicada: unalias: nosuch: not found\n")], 1
     else:
         cmd, emits, bst = "vp_io A", [(1, b"O:A\n"), (2, b"E:A\n")], 0
+    decoys = []
+    if not builtin and rng.random() < 0.3:
+        # arguments that hold an operator character inside quotes (as a whole word, or starting in the middle of a word) or
+        # escaped: they are data, whatever redirections the command has besides
+        decoys = rng.sample(DECOY_ARGS, rng.randint(1, 2))
+        cmd = cmd + " " + " ".join(decoys)
     pos = rng.choice(["only", "only", "first", "middle", "last"])
     nred = rng.choice([0, 1, 1, 2, 2, 3, 4])
     redirs = []
@@ -330,7 +343,7 @@ def gen_case(rng, thorough):
             init[rd["target"]] = "old"
     feed = rng.choice([b"", b"fed\n", b"two\nlines\n", bytes(range(256)) * 3])
     return {"cmd": cmd, "emits": emits, "builtin": builtin, "builtin_status": bst, "pos": pos,
-            "redirs": redirs, "init": init, "feed": feed}
+            "redirs": redirs, "init": init, "feed": feed, **({"decoys": decoys} if decoys else {})}
 
 
 def _fix(case):
